@@ -28,6 +28,24 @@ CHECKS = {
              'evaluation error of the (division-free, bilinear) kernels is not decided.',
         design='§3 C02'),
 }
+CHECKS['C13'] = dict(
+    text='Projector, Identity, PosProjector, NegProjector and Generator are executed symbolically for d=2..6 with the index an '
+         'unconstrained 32-bit solver variable; z3 decides, per path, that the represented matrix (through the C01-pinned map) is the '
+         'documented 0/1 diagonal as a function of the index, that exactly the inadmissible indices throw, and that '
+         'PosProjector(d,k)+NegProjector(d,d-k)=Identity for 0<k<d with k shared symbolically between two executions. The index space '
+         'is finite, so the per-dimension verdict is exhaustive.',
+    note='Trusted: clang-14 -O1 IR (every admissible call is also diffed interpreter-vs-native), GSL shim, z3. Dimensions outside 2..6 '
+         'belong to C14.',
+    design='§3 C13')
+CHECKS['C17'] = dict(
+    text='Set_xrange (linear, log, vector overload), Get_x and Get_i are executed symbolically on a real SQuIDS object for nx=2..17 '
+         '(thorough 2..33) with a<b and x symbolic reals: grid shape (ends, monotone, equal spacing; log/exp as monotone inverse '
+         'uninterpreted functions with listed lemma instances; (1+delta) rounding model for the linear end point), acceptance of user '
+         'grids iff sorted and of the right size with exact storage, and Get_i bracketing on exact uniform grids and on arbitrary '
+         'strictly increasing symbolic grids (i<=nx-2, x_i<=x<=x_{i+1}, throws iff outside).',
+    note='Trusted: clang-14 -O1 IR (interpreter-vs-native diff), std::string/operator new intrinsics, GSL shim for the Const members; '
+         'exact reals stand in for doubles (the lookup only compares, so rounding enters through the grid values, which are symbolic).',
+    design='§3 C17')
 NA_REASON = 'check not built yet (framework under construction; see DESIGN.md)'
 NA = {}
 
